@@ -118,7 +118,7 @@ func (s *c15Sink) StartRecording(bg *cptvframe.Frame, th uint16) error {
 	return nil
 }
 func (s *c15Sink) WriteFrame(f *cptvframe.Frame) error { return nil }
-func (s *c15Sink) CheckCanRecord() error              { return nil }
+func (s *c15Sink) CheckCanRecord() error               { return nil }
 
 func c15Clamp(mean int, c detConfig) int {
 	m := mean
@@ -192,8 +192,8 @@ func TestVerif_C15(t *testing.T) {
 				panic(fmt.Sprintf("harness: previewFrames %d != %d", d.previewFrames, cfg.PreviewFrames))
 			}
 			frame := cptvframe.NewFrame(cfg.cam())
-			updates := 0       // non-FFC frames since start/reset
-			needSeed := true   // next non-FFC frame must (re)seed the background
+			updates := 0     // non-FFC frames since start/reset
+			needSeed := true // next non-FFC frame must (re)seed the background
 			prevAffected := false
 			prevBg := clonePix(d.background.Pix)
 			recomputes, reseeds := 0, 0
